@@ -25,7 +25,11 @@ where
 
     fn try_from(bytes: UintRef<'a>) -> der::Result<Uint<LIMBS>> {
         let mut array = Array::default();
-        let offset = array.len().saturating_sub(bytes.len().try_into()?);
+        let len: usize = bytes.len().try_into()?;
+        if len > array.len() {
+            return Err(Self::TAG.length_error());
+        }
+        let offset = array.len() - len;
         array[offset..].copy_from_slice(bytes.as_bytes());
         Ok(Uint::from_be_byte_array(array))
     }
